@@ -510,6 +510,18 @@ class CallMixin:
             self.assume(z3.And(k >= 0, k < L, t[k] == x))
             self.assume(z3.ForAll([j], z3.Implies(z3.And(j >= 0, j < k), t[j] != x)))
             return SInt(k)
+        if name == 'sort' and not args and set(kw) <= {'key', 'reverse'}:
+            # xs.sort(key=, reverse=): xs becomes sorted(xs, key=, reverse=) (the stable sorted permutation), written back through the lvalue
+            self.check_alias(fr, recv)
+            reverse = False
+            if kw.get('reverse') is not None:
+                sr = z3.simplify(self.truthy(kw['reverse']))
+                if not (z3.is_true(sr) or z3.is_false(sr)):
+                    raise Unsupported('sort with symbolic reverse')
+                reverse = z3.is_true(sr)
+            out = self.sorted_model(fr, SSeq(t, 'list', recv.elem), kw.get('key'), reverse, node)
+            self.assign(fr, recv_node, SSeq(out.t, recv.kind, recv.elem))
+            return NONE
         if name == 'count' or name == 'sort' or name == 'insert' or name == 'remove' or name == 'reverse':
             raise Unsupported(f'list.{name}')
         raise Unsupported(f'sequence method {name}')
@@ -717,6 +729,8 @@ class CallMixin:
         finally:
             self.specmode -= 1
         out = SSeq(r, kind)
+        if isinstance(node.elt, ast.Name) and isinstance(gen.target, ast.Name) and node.elt.id == gen.target.id and seq.elem is not None:
+            out.elem = seq.elem        # [x for x in xs if c(x)]: the kept elements are elements of xs and have their declared shape
         return out
 
     def e_DictComp(self, fr, node):
